@@ -12,14 +12,17 @@ def make_recorder(W, log):
     BF = W.load("sktime.forecasting.base._base").BaseForecaster
 
     class Rec(BF):
-        def __init__(self, p=0, nan_last=False):
+        def __init__(self, p=0, nan_last=False, scribbles=False):
             self.p = p
             self.nan_last = nan_last
+            self.scribbles = scribbles
             super().__init__()
 
         def fit(self, y, X=None, fh=None, **kw):
             log.append({"op": "fit", "idx": L(y.index), "vals": L(y.values), "xidx": None if X is None else L(X.index), "p": S(self.p)})
             self._cut = y.index[-1]
+            if getattr(self, "scribbles", False):
+                y.iloc[0] = y.iloc[0] + 1000  # a forecaster that pre-processes its training data in place: folds must not share memory
             self._is_fitted = True
             return self
 
@@ -161,7 +164,7 @@ class C07(Harness):
         log = []
         Rec = make_recorder(W, log)
         sc = make_score(W, gib=bool(inp["return_data"]))  # the scorer's direction flag must not change the reported value
-        fc = Rec(nan_last=bool(inp.get("nan_last")))
+        fc = Rec(nan_last=bool(inp.get("nan_last")), scribbles=(not inp.get("prefitted")) and not inp.get("return_data"))  # (with return_data the fold objects are handed back: left alone)
         if inp.get("prefitted"):
             fc.fit(y, X)
             del log[:]
